@@ -14,7 +14,7 @@ from oqv import roles, rolebind
 from oqv.astutil import branch_context, call_name, method_call
 from oqv.cfg import CFG
 from oqv.dataflow import DefUse, origin
-from oqv.model import AnalysisError, Program, Unit, dotted, norm, walk_local
+from oqv.model import AnalysisError, Program, Unit, dotted, norm, walk_local, kw_of
 from oqv.report import Check
 
 SD = "system_dynamics"
@@ -48,7 +48,7 @@ class NtView:
         if len(calls) != 1:
             raise AnalysisError("C07: call of _compute_ordered_nt_correlations not found")
         self.inner_call = calls[0]
-        kw = {k.arg: k.value for k in calls[0].keywords if k.arg}
+        kw = kw_of(calls[0])
         self.last_times = kw["last_times"].id if isinstance(kw.get("last_times"), ast.Name) else None
         self.first_times = kw["first_times"].id if isinstance(kw.get("first_times"), ast.Name) \
             else None
@@ -135,7 +135,7 @@ def v1(prog: Program, chk: Check) -> None:
           and call_name(x) == "compute_dynamics"]
     if len(cd) != 1:
         raise AnalysisError("V1: compute_dynamics call vanished from _compute_ordered_nt_correlations")
-    kw = {k.arg: k.value for k in cd[0].keywords}
+    kw = kw_of(cd[0])
     ok = dotted(kw.get("dt")) == dt_params[0] if kw.get("dt") is not None else False
     chk.add("V1", inner, f"compute_dynamics(dt={norm(kw['dt']) if 'dt' in kw else '<missing>'})", ok,
             "" if ok else "the time step parameter does not reach the dynamics", cd[0])
@@ -367,7 +367,8 @@ def _lists_per_time_order(u: Unit) -> Dict[str, Dict[str, List]]:
     if len(calls) != 1:
         raise AnalysisError("V4: compute_correlations no longer calls compute_correlations_nt once")
     out: Dict[str, Dict[str, List]] = {}
-    for k in calls[0].keywords:
+    import types as _types
+    for k in [_types.SimpleNamespace(arg=a_, value=v_) for a_, v_ in kw_of(calls[0]).items()]:
         if k.arg in ("operators", "ops_times", "ops_order") and isinstance(k.value, ast.Name):
             for st in walk_local(u.node):
                 if isinstance(st, ast.Assign) and len(st.targets) == 1 \
@@ -517,7 +518,8 @@ def v8(prog: Program, chk: Check) -> None:
     body = {n for n in body if g.find_path([n], lambda x: x == head) is not None}
     call_node = du.node_of(view.inner_call)
     uses: List[Tuple[int, ast.AST, str]] = []
-    for k in view.inner_call.keywords:
+    import types as _types
+    for k in [_types.SimpleNamespace(arg=a_, value=v_) for a_, v_ in kw_of(view.inner_call).items()]:
         if k.arg in ("first_times", "last_times"):
             uses.append((call_node, k.value, f"{k.arg}="))
     for n in g.nodes:
